@@ -1031,7 +1031,9 @@ func (s *Stream) appendInFramesLocked(w *packetWriter, pnum packetNumber, pto bo
 	// TODO: STOP_SENDING
 	if s.insendmax.shouldSendPTO(pto) {
 		// MAX_STREAM_DATA
-		maxStreamData := s.in.start + s.inmaxbuf
+		// Bytes moved to the fast-path read buffer (s.inbuf) have been
+		// handed to the reader; see the window computation in Read.
+		maxStreamData := s.in.start + int64(len(s.inbuf)) + s.inmaxbuf
 		if !w.appendMaxStreamDataFrame(s.id, maxStreamData) {
 			return false
 		}
